@@ -487,7 +487,7 @@ def run(sc: Dict[str, Any], cache: Optional[Dict[str, Any]] = None) -> Dict[str,
         was_training = m.training
         if was_training:
             m.eval()
-        cmp_x = xs + [torch.rand((5,) + input_shape(arch), generator=gen) * 1.4 - 0.2]       # also another batch size
+        cmp_x = xs[1:] + [torch.rand((5,) + input_shape(arch), generator=gen) * 1.4 - 0.2]   # batch sizes 3, 2, 5
         with torch.no_grad():
             y_before = [m(x) for x in cmp_x]
         try:
